@@ -253,6 +253,85 @@ Proof.
   pose proof (e_record_length r Hr). apply (f_equal (@length _)) in E. rewrite app_length in E. cbn [length] in E. lia.
 Qed.
 
+Lemma flat_length_ge rs : Forall wf_record rs -> (length rs <= length (flat rs))%nat.
+Proof.
+  intro H. induction H as [|r rs Hr Hrs IH]; [cbn; lia|]. unfold flat. cbn [flat_map length]. fold (flat rs).
+  rewrite app_length. pose proof (e_record_length r Hr). lia.
+Qed.
+
+(* ---- reverse iteration of a whole file = the mirror of the forward one ---- *)
+Lemma p_row_tail_rt r rest : wf_record r ->
+  p_row_tail (e_time (r_time r) ++ r_prev r ++ r_commit r ++ e_u32 (lenb (r_data r)) ++ rest) = Some (r_commit r, rest).
+Proof.
+  destruct r as [t pv c d]. intros (Ht & Hp & Hc & Hd). cbn [r_time r_prev r_commit r_data] in *.
+  unfold p_row_tail, bind. rewrite MAXB_val in *.
+  rewrite time_rt by exact Ht. rewrite !p_fixed_rt by (rewrite ?MAXB_val; lia).
+  rewrite p_u32_rt by lia. reflexivity.
+Qed.
+Lemma e_u32_len x : lenb (e_u32 x) = 4.
+Proof. unfold lenb, e_u32. rewrite le_bytes_length. reflexivity. Qed.
+
+Lemma scan_back_records : forall rs, Forall wf_record rs -> forall pre suffix acc fuel,
+  (length rs < fuel)%nat ->
+  scan_back fuel (pre ++ flat rs ++ suffix) (lenb pre) (lenb (pre ++ flat rs)) acc =
+  Some (rev acc ++ rev (map r_commit rs)).
+Proof.
+  intros rs. induction rs as [|r rs IH] using rev_ind; intros Hwf pre suffix acc fuel Hf.
+  - cbn [flat flat_map map rev]. rewrite !app_nil_r. destruct fuel as [|k]; [lia|]. cbn [scan_back].
+    rewrite N.eqb_refl. reflexivity.
+  - apply Forall_app in Hwf. destruct Hwf as [Hrs Hr]. inversion Hr as [|? ? Hwr _]; subst.
+    assert (flat (rs ++ [r]) = flat rs ++ e_record r) as Hfl
+      by (unfold flat; rewrite flat_map_app; cbn [flat_map]; rewrite app_nil_r; reflexivity).
+    rewrite Hfl. rewrite app_length in Hf. cbn [length] in Hf.
+    destruct fuel as [|k]; [lia|]. cbn [scan_back].
+    pose proof (e_record_len r Hwr) as HL. pose proof (record_body_len r Hwr) as HB.
+    set (L := lenb (record_body r)) in *.
+    assert (lenb (pre ++ flat rs ++ e_record r) = lenb (pre ++ flat rs) + (L + 8)) as Hpos
+      by (rewrite !lenb_app in *; lia).
+    rewrite Hpos.
+    assert ((lenb (pre ++ flat rs) + (L + 8) =? lenb pre) = false) as -> by (rewrite lenb_app; lia).
+    assert ((lenb (pre ++ flat rs) + (L + 8) <? lenb pre + 4) = false) as -> by (rewrite lenb_app; lia).
+    (* the trailing length field *)
+    assert (pre ++ (flat rs ++ e_record r) ++ suffix =
+            (pre ++ flat rs ++ head r ++ r_data r) ++ e_u32 L ++ suffix) as Hsplit1.
+    { rewrite e_record_split. fold L. rewrite <- !app_assoc. reflexivity. }
+    rewrite Hsplit1.
+    assert (lenb (pre ++ flat rs) + (L + 8) - 4 = lenb (pre ++ flat rs ++ head r ++ r_data r)) as ->.
+    { assert (lenb (head r) = 84) as Hh84 by (unfold lenb; rewrite (head_len r Hwr); reflexivity).
+      rewrite !lenb_app, Hh84. lia. }
+    rewrite skipn_lenb_app.
+    assert (L < 4294967296) as HL32 by (destruct Hwr as (_ & _ & _ & Hd); rewrite MAXB_val in Hd; lia).
+    rewrite p_u32_rt by exact HL32.
+    assert ((lenb (pre ++ flat rs) + (L + 8) <? lenb pre + L + 8) = false) as -> by (rewrite lenb_app; lia).
+    replace (lenb (pre ++ flat rs) + (L + 8) - (L + 8)) with (lenb (pre ++ flat rs)) by lia.
+    (* the row read from row_start + 4 *)
+    assert ((pre ++ flat rs ++ head r ++ r_data r) ++ e_u32 L ++ suffix =
+            ((pre ++ flat rs) ++ e_u32 L) ++
+            (e_time (r_time r) ++ r_prev r ++ r_commit r ++ e_u32 (lenb (r_data r)) ++ (r_data r ++ e_u32 L ++ suffix))) as Hsplit2.
+    { unfold head. fold L. rewrite <- !app_assoc. reflexivity. }
+    rewrite Hsplit2.
+    assert (lenb (pre ++ flat rs) + 4 = lenb ((pre ++ flat rs) ++ e_u32 L)) as -> by (rewrite (lenb_app (pre ++ flat rs)), e_u32_len; lia).
+    rewrite skipn_lenb_app. rewrite (p_row_tail_rt r _ Hwr).
+    (* back to the shape of the induction hypothesis *)
+    rewrite <- Hsplit2, <- Hsplit1.
+    replace (pre ++ (flat rs ++ e_record r) ++ suffix) with (pre ++ flat rs ++ (e_record r ++ suffix))
+      by (rewrite <- !app_assoc; reflexivity).
+    rewrite (IH Hrs pre (e_record r ++ suffix) (r_commit r :: acc) k) by lia.
+    rewrite map_app, rev_app_distr. cbn [map rev app]. rewrite <- app_assoc. reflexivity.
+Qed.
+
+Theorem open_log_rev_whole rs pre : Forall wf_record rs -> (0 < length pre)%nat ->
+  open_log_rev (lenb pre) (pre ++ flat rs) = Some (rev (map r_commit rs)).
+Proof.
+  intros Hrs Hpre. unfold open_log_rev. destruct (lenb (pre ++ flat rs) <=? lenb pre) eqn:E.
+  - assert (flat rs = []) as Hnil.
+    { rewrite lenb_app in E. unfold lenb in E. destruct (flat rs); [reflexivity|]. cbn [length] in E. lia. }
+    apply (flat_nil_inv rs Hrs) in Hnil. subst rs. reflexivity.
+  - pose proof (scan_back_records rs Hrs pre [] [] (S (length (pre ++ flat rs)))) as G.
+    rewrite !app_nil_r in G. rewrite G; [reflexivity|].
+    rewrite app_length. pose proof (flat_length_ge rs Hrs). lia.
+Qed.
+
 Theorem open_log_cut ident ver rs ns c : length ident = 4%nat ->
   Forall wf_record rs -> Forall wf_record ns ->
   let pre := ident ++ ver in
@@ -281,6 +360,17 @@ Proof.
     pose proof (e_record_length n Hn1). apply (f_equal (@length _)) in Hn.
     rewrite firstn_length, app_length in Hn. cbn [length] in Hn. lia.
   - apply scan_torn; [exact Hrs|exact Hns|]. unfold pre. rewrite app_length. lia.
+Qed.
+
+Theorem file_reverse_mirrors_forward ident ver rs : length ident = 4%nat -> Forall wf_record rs ->
+  let pre := ident ++ ver in
+  open_log ident (lenb pre) (pre ++ flat rs) = Some (map r_commit rs) /\
+  open_log_rev (lenb pre) (pre ++ flat rs) = Some (rev (map r_commit rs)).
+Proof.
+  intros Hid Hrs pre. split.
+  - pose proof (open_log_cut ident ver rs [] 0 Hid Hrs (Forall_nil _)) as E.
+    cbn [flat flat_map firstn cut_records map] in E. rewrite !app_nil_r in E. exact E.
+  - apply open_log_rev_whole; [exact Hrs|]. unfold pre. rewrite app_length. lia.
 Qed.
 
 (* =======================================================================================
